@@ -217,6 +217,21 @@ class Ctx:
         return E('var', name=name, extra='local', isd=isd), t
 
 
+def push_neg(e, isd):
+    """-(a*b/c) == (-a)*b/c exactly in IEEE arithmetic (sign-symmetric rounding): move a leading unary minus into the
+    leftmost literal factor, the form the C++ port is written in (-2. * x / y)"""
+    if e.k == 'bin' and e.op in ('*', '/'):
+        inner = push_neg(e.a, isd)
+        if inner is not None:
+            return E('bin', op=e.op, a=inner, b=e.b, isd=e.isd)
+        return None
+    if e.k == 'flit':
+        return E('flit', name=('-' + e.name) if not e.name.startswith('-') else e.name[1:])
+    if e.k == 'ilit' and re.match(r'^\d+$', e.name):
+        return E('ilit', name='-' + e.name)
+    return None
+
+
 class Parser:
     def __init__(self, toks, ctx):
         self.t = toks
@@ -288,7 +303,8 @@ class Parser:
             self.next()
             a, ta = self.p_mul()
             if x == '-':
-                a = E('un', op='-', a=a, extra='pre', isd=(ta == 'd'))
+                pn = push_neg(a, ta == 'd')
+                a = pn if pn is not None else E('un', op='-', a=a, extra='pre', isd=(ta == 'd'))
         else:
             a, ta = self.p_mul()
         while True:
